@@ -183,6 +183,8 @@ def main(argv):
         minimum = meta["min_events"][0 if tier == "quick" else 1]
         if res.get("events", 0) < minimum:
             inc.append(f"only {res.get('events', 0)} monitored events (< declared minimum {minimum})")
+        if not res.get("samples"):
+            inc.append("harness recorded no sample case")
         for key, mn in meta.get("min_counters", {}).items():
             if res.get("counters", {}).get(key, 0) < mn:
                 inc.append(f"counter {key}={res.get('counters', {}).get(key, 0)} < {mn}: sub-workload observed nothing")
